@@ -222,9 +222,52 @@ class Unit:
         self.canaries = []       # (label, fn_name, regex, repl, emitted_fn_index)
         self.trusted_scan = []
 
+    def expand_defs(self, line):
+        # textual spec macros:  //@def name(a,b) := text   used as  @name(x, y)
+        for _ in range(20):
+            mm = re.search(r'@(\w+)\(', line)
+            if not mm or mm.group(1) not in self.defs:
+                break
+            params, body = self.defs[mm.group(1)]
+            i = mm.end()
+            depth, args, cur = 1, [], ''
+            while i < len(line) and depth > 0:
+                ch = line[i]
+                if ch in '([{':
+                    depth += 1
+                elif ch in ')]}':
+                    depth -= 1
+                    if depth == 0:
+                        break
+                if ch == ',' and depth == 1:
+                    args.append(cur)
+                    cur = ''
+                else:
+                    cur += ch
+                i += 1
+            args.append(cur)
+            args = [a.strip() for a in args]
+            if len(args) != len(params):
+                raise LostAnchor('template: @%s expects %d args: %s' % (mm.group(1), len(params), line))
+            text = body
+            for pn, av in zip(params, args):
+                if not re.match(r'^[\w.]+$', av):
+                    av = '(' + av + ')'
+                text = re.sub(r'\$' + pn + r'\b', av.replace('\\', '\\\\'), text)
+            line = line[:mm.start()] + text + line[i + 1:]
+        return line
+
     def load(self, path):
         out = []
+        if not hasattr(self, 'defs'):
+            self.defs = {}
         for l in open(path).read().split('\n'):
+            if l.strip().startswith('//@def '):
+                mm = re.match(r'//@def\s+(\w+)\(([^)]*)\)\s*:=\s*(.*)$', l.strip())
+                self.defs[mm.group(1)] = ([x.strip() for x in mm.group(2).split(',') if x.strip()], mm.group(3))
+                continue
+            if '@' in l and (not l.strip().startswith('//@') or l.strip().startswith('//@sub ')):
+                l = self.expand_defs(l)
             if l.strip().startswith('//@include '):
                 inc = l.strip()[len('//@include '):].strip()
                 out.extend(self.load(os.path.join(os.path.dirname(path), inc)))
